@@ -1,0 +1,45 @@
+package caddyhttp
+
+import (
+	"context"
+	"net/http"
+	"net/url"
+	"testing"
+
+	"github.com/caddyserver/caddy/v2"
+)
+
+// A path pattern that contains '%' and no wildcard is an exact pattern: it must not
+// match a request path that merely starts with it.
+func TestPathMatcherEscapedPatternIsExact(t *testing.T) {
+	for _, tc := range []struct {
+		pattern, target string
+		want            bool
+	}{
+		{"/sp%20ace", "/sp%20ace", true},
+		{"/sp%20ace", "/sp%20acex", false},
+		{"/a%2fb", "/a%2Fb/anything", false},
+		{"/a%2fb", "/a%2Fb", true},
+		{"/a%2fb/*", "/a%2Fb/anything", true},
+		{"/foo%2fbar/baz", "/foo%2Fbar/ba%7A", true},
+	} {
+		m := MatchPath{tc.pattern}
+		if err := m.Provision(caddy.Context{}); err != nil {
+			t.Fatal(err)
+		}
+		u, err := url.ParseRequestURI(tc.target)
+		if err != nil {
+			t.Fatal(err)
+		}
+		req := &http.Request{URL: u}
+		repl := caddy.NewReplacer()
+		req = req.WithContext(context.WithValue(req.Context(), caddy.ReplacerCtxKey, repl))
+		got, err := m.MatchWithError(req)
+		if err != nil {
+			t.Fatal(err)
+		}
+		if got != tc.want {
+			t.Errorf("path %s against %s: got %v, want %v", tc.pattern, tc.target, got, tc.want)
+		}
+	}
+}
